@@ -2,8 +2,9 @@
 
 Programs: every operator of the property's list {+, -, *, unary -, <<, //, /} on every integer C type as
 var o var, var o const, const o var (literal and typed <T> constants) plus nested side-effect-free expressions
-(a*b+c, (a+b)*(c-d), a*b*c, -(a*b), (a<<b)+c, a*b-c*d, (a*b)//c, a+b*<T>3) and one expression with an impure
-leaf (a*b + noisy(c*d)), compiled as sweep functions with overflowcheck=True, overflowcheck.fold in {True, False},
+(the complete depth-2 family over {+,-,*,<<}: (a i b) o c, a o (b i c), (a*b) o (c i d), (a i b) o (c*d) for all
+operators i, o - every operator in every position, i.e. also evaluated after a child/sibling that already overflowed -
+plus (a+b)*(c-d), -(a*b), (a*b)//c, a+b*<T>3) and one expression with an impure leaf (a*b + noisy(c*d)), compiled as sweep functions with overflowcheck=True, overflowcheck.fold in {True, False},
 in two C configurations (compiler overflow builtins; the manual #else branch of Overflow.c, selected with
 -D__ibmxl__ -D__INTEL_COMPILER=1700).  Inputs: all 65536 operand pairs for 8-bit types, all pairs of the
 boundary grid for 16/32/64-bit types, all triples/quadruples of the reduced grid for nested expressions.
@@ -16,8 +17,9 @@ from props import _g3_cint as g
 LEVEL = 'exploration'
 ENGINE = 'E2 diffexplore'
 TECHNIQUE = 'exhaustive (operator x operand form x C type x fold x C config) programs x complete operand alphabets, compiled sweep vs exact-integer model with per-node result types'
-LEVEL_TEXT = ('Every operator of {+, -, *, unary -, <<, //, /} x operand form (var o var, var o const, const o var, 9 nested '
-              'expression shapes incl. one impure leaf) x integer C type (10 standard types + mixed pairs) is compiled with '
+LEVEL_TEXT = ('Every operator of {+, -, *, unary -, <<, //, /} x operand form (var o var, var o const, const o var, the complete '
+              'depth-2 family over {+,-,*,<<} with every operator in outer / left-child / right-child position, 5 further nested '
+              'shapes incl. one impure leaf) x integer C type (10 standard types + mixed pairs) is compiled with '
               'overflowcheck=True, fold on/off, with compiler overflow builtins and with the manual branch of Overflow.c, and run '
               'on all 65536 pairs (8-bit), all pairs of the boundary grid (16/32/64-bit) and all triples/quadruples of the reduced '
               'grid (nested).  Exact-integer model: a result that does not fit its node type must raise; a fitting result must be '
@@ -236,10 +238,10 @@ def programs(tier):
     P = []
     quick = tier == 'quick'
 
-    def add(shape, tree, vars_, small=False, impure=False, folds=(True,), core=False):
+    def add(shape, tree, vars_, small=False, impure=False, folds=(True,), core=False, depth2=False):
         lang = 2 if '/' in repr(tree).replace('//', '') else 3
         P.append(dict(shape=shape, tree=tree, vars=[list(x) for x in vars_], small=small, impure=impure, lang=lang,
-                      folds=folds, core=core))
+                      folds=folds, core=core, depth2=depth2))
 
     both = (True, False)
     a, b, c, d = V('a'), V('b'), V('c'), V('d')
@@ -269,15 +271,33 @@ def programs(tier):
                 add('%s%sa' % (nm, op), B(op, kn, a), [('a', k)], core=op in '+*')
     # nested
     ntypes = ['schar', 'short', 'int', 'uint', 'long', 'ulong'] if quick else g.TEN
+    # complete depth-2 family over {+, -, *, <<}: every operator in every position (outer / left child / right child),
+    # so that every checked helper is also evaluated AFTER a child or sibling that already overflowed (the shared
+    # overflow bit of a folded expression must be OR-ed, never assigned) and before one that overflows later
+    dtypes = ['int', 'long'] if quick else ['int', 'uint', 'long', 'ulong', 'longlong', 'short']
+    OPS4 = ['+', '-', '*', '<<']
+    for k in dtypes:
+        three = [('a', k), ('b', k), ('c', k)]
+        four = three + [('d', k)]
+        for o in OPS4:
+            for i in OPS4:
+                add('(a%sb)%sc' % (i, o), B(o, B(i, a, b), c), three, small=True, folds=both, core=True, depth2=True)
+                add('a%s(b%sc)' % (o, i), B(o, a, B(i, b, c)), three, small=True, folds=both, core=True, depth2=True)
+                add('(a*b)%s(c%sd)' % (o, i), B(o, B('*', a, b), B(i, c, d)), four, small=2, folds=both, core=True,
+                    depth2=True)
+                if i != '*':
+                    add('(a%sb)%s(c*d)' % (i, o), B(o, B(i, a, b), B('*', c, d)), four, small=2, folds=both, core=True,
+                        depth2=True)
     for k in ntypes:
         three = [('a', k), ('b', k), ('c', k)]
         four = three + [('d', k)]
-        add('a*b+c', B('+', B('*', a, b), c), three, small=True, folds=both, core=True)
+        if k not in dtypes:     # (for dtypes these four are members of the depth-2 family above)
+            add('a*b+c', B('+', B('*', a, b), c), three, small=True, folds=both, core=True)
+            add('a*b*c', B('*', B('*', a, b), c), three, small=True, folds=both, core=True)
+            add('(a<<b)+c', B('+', B('<<', a, b), c), three, small=True, folds=both, core=True)
+            add('a*b-c*d', B('-', B('*', a, b), B('*', c, d)), four, small=2, folds=both, core=True)
         add('(a+b)*(c-d)', B('*', B('+', a, b), B('-', c, d)), four, small=2, folds=both, core=True)
-        add('a*b*c', B('*', B('*', a, b), c), three, small=True, folds=both, core=True)
         add('-(a*b)', N(B('*', a, b)), [('a', k), ('b', k)], folds=both, core=True)
-        add('(a<<b)+c', B('+', B('<<', a, b), c), three, small=True, folds=both, core=True)
-        add('a*b-c*d', B('-', B('*', a, b), B('*', c, d)), four, small=2, folds=both, core=True)
         add('(a*b)//c', B('//', B('*', a, b), c), three, small=True, folds=both, core=True)
         add('a+b*<T>3', B('+', a, B('*', b, K('3', k))), [('a', k), ('b', k)], folds=both, core=True)
         add('a*b+noisy(c*d)', B('+', B('*', a, b), CALL(B('*', c, d), k)), four, small=2, impure=True, folds=both, core=True)
@@ -301,7 +321,7 @@ def modules(tier):
                 for i, p in enumerate(P):
                     if p['lang'] != lang or fold not in p['folds']:
                         continue
-                    if cname == 'manual' and tier == 'quick' and not p['core']:
+                    if cname == 'manual' and tier == 'quick' and (not p['core'] or (p['depth2'] and not fold)):
                         continue
                     name = 'f%d' % i
                     tag = {'id': '%s/%s/fold%d/%s' % (p['shape'], '.'.join(tk for _, tk in p['vars']), fold, cname),
